@@ -197,6 +197,7 @@ func main() {
 		"one atomic counter stamps call/return; being a synchronisation point it makes two operations unordered for the detector exactly when their intervals overlap",
 		"scrypt work factor 5 (cost only); RSA keys of 2048 bits; payloads 0 B, 1 B, 65 KiB, 200 KiB",
 		"operations per goroutine: 12/4/2/1 for 2/8/32/128 goroutines; shared values and shared lists are constructed afresh for every round",
+		"constructor variants rotate per round: RSA identity from ParseIdentity / NewRSAIdentity over a bare component-built key (also after Validate) / over a precomputed key; Ed25519 identity from ParseIdentity / NewEd25519Identity(seed key); recipients from ParseRecipient / New*Recipient(ssh.NewPublicKey(rebuilt key)); in bare-key rounds the first call of up to 6 goroutines is an ssh-rsa decryption",
 		"shared lists: three []age.Identity orders of the four identities and two []age.Recipient lists, spread with ... into the calls; checked unchanged after every round that used them, plus a sequential pass",
 		"EncryptedSSHIdentity (caches the decrypted key) and plugin values are outside the property's list of types and are not exercised",
 		"decryption inputs and the check of encryption outputs come from the reference implementation (refage), validated against the CCTV vectors at start-up",
@@ -241,7 +242,8 @@ func main() {
 	objs := map[string]*objAgg{}
 	byTmpl, byKind, errClasses := map[string]int{}, map[string]int{}, map[string]int{}
 	cover := map[string]map[string]int{"goroutines": {}, "gomaxprocs": {}, "payload": {}, "mix": {}}
-	var rounds, ioCalls, listChecks, seqOps int64
+	var rounds, ioCalls, listChecks, seqOps, bareRounds, bareOverlapRounds, bareFirstPairs int64
+	provTab := map[string]map[string]int{}
 	rawRaces, ageRaces, harnessRaces := 0, 0, 0
 	dedup := map[string]int{}
 
@@ -251,6 +253,19 @@ func main() {
 			r.Eval(ro.Ops)
 			ioCalls += ro.IOCalls
 			listChecks += int64(ro.ListChecks)
+			for k, v := range ro.Prov {
+				if provTab[k] == nil {
+					provTab[k] = map[string]int{}
+				}
+				provTab[k][v]++
+			}
+			if ro.BareRSA {
+				bareRounds++
+				if ro.BareFirstPairs > 0 {
+					bareOverlapRounds++
+				}
+				bareFirstPairs += int64(ro.BareFirstPairs)
+			}
 			seqOps += int64(ro.SeqOps)
 			cover["goroutines"][fmt.Sprint(ro.G)] += ro.Ops
 			cover["gomaxprocs"][fmt.Sprint(ro.P)] += ro.Ops
@@ -377,6 +392,9 @@ func main() {
 				n, objLegend[n], a.Pairs, minPairs, a.HeadPairs, minHead, len(a.Sigs))
 		}
 	}
+	if minBare := int64(r.Pick(40, 300)); bareOverlapRounds < minBare {
+		r.Inconclusive("only %d rounds (min %d) had a fresh RSA identity over a bare key (no Precomputed values) whose first private-key calls overlapped", bareOverlapRounds, minBare)
+	}
 	if rounds != int64(reps*roundsPerRep) && len(dedup) == 0 {
 		r.Inconclusive("%d of %d rounds completed", rounds, reps*roundsPerRep)
 	}
@@ -388,6 +406,10 @@ func main() {
 	r.Count("io_calls_perturbed", ioCalls)
 	r.Count("shared_list_unchanged_checks", listChecks)
 	r.Count("sequential_pass_ops", seqOps)
+	r.Count("bare_rsa_key_rounds", bareRounds)
+	r.Count("bare_rsa_key_rounds_with_overlapping_first_calls", bareOverlapRounds)
+	r.Count("bare_rsa_key_overlapping_first_call_pairs", bareFirstPairs)
+	r.Set("rounds_by_constructor_variant", provTab)
 	r.Count("overlapping_pairs_total", int64(totalPairs))
 	r.Count("overlapping_pairs_in_wrap_unwrap_phase_total", int64(totalHead))
 	r.Count("overlap_signatures_total", int64(totalSigs))
